@@ -108,7 +108,10 @@ impl Context for CommonContext {
     }
 
     fn get_set(&self, name: &String) -> Option<Expr> {
-        self.sets.borrow().get(name).map(|x| x.clone())
+        self.sets
+            .borrow()
+            .get(&name.to_lowercase())
+            .map(|x| x.clone())
     }
 
     fn get_special(&self, name: &String) -> Option<Expr> {
